@@ -15,7 +15,9 @@
 EXTENDS Integers, Sequences, FiniteSets, TLC
 
 CONSTANTS Proto, Mux, Runner, MaxOps, LeakMainOnMux, LeakPluginBrokered
-Ops == {"dispense", "broker_h2p", "broker_p2h", "stdio", "accept_during_shutdown", "unmatched_dials", "unmatched_accept"}
+Ops == {"dispense", "broker_h2p", "broker_p2h", "stdio", "accept_during_shutdown", "unmatched_dials", "unmatched_accept",
+        "broker_h2p_reuse", "broker_p2h_reuse",     \* _reuse: one brokered id used for several establishments in a row
+        "raw_accept_reuse"}                         \* the host application accepts an id twice itself and never closes the listeners
 
 VARIABLES res, phase, nops, nb
 rv == <<res, phase, nops, nb>>
@@ -28,7 +30,14 @@ Start == /\ phase = "new" /\ phase' = "up"
          /\ UNCHANGED <<nops, nb>>
 Op(o) == /\ phase = "up" /\ nops < MaxOps /\ nops' = nops + 1
          /\ (o = "accept_during_shutdown" => Proto = "grpc")
-         /\ IF o \in {"broker_h2p", "broker_p2h", "accept_during_shutdown"} /\ Proto = "grpc" /\ ~Mux
+         /\ IF o \in {"broker_h2p_reuse", "broker_p2h_reuse", "raw_accept_reuse"}
+            THEN \* two listeners (plain gRPC: two sockets) under one id, both still open at the Kill
+                 /\ nb' = nb + 2
+                 /\ res' = res \cup (IF Proto = "grpc" /\ ~Mux
+                                      THEN {<<"brokered_socket", IF o = "broker_h2p_reuse" THEN "plugin" ELSE "host", nb + 1>>,
+                                            <<"brokered_socket", IF o = "broker_h2p_reuse" THEN "plugin" ELSE "host", nb + 2>>}
+                                      ELSE {}) \cup {<<"broker_goroutines", "both", nb + 1>>, <<"broker_goroutines", "both", nb + 2>>}
+            ELSE IF o \in {"broker_h2p", "broker_p2h", "accept_during_shutdown"} /\ Proto = "grpc" /\ ~Mux
             THEN \* plain gRPC: the accepting side opens a listener with its own socket file
                  /\ nb' = nb + 1
                  \* (accept_during_shutdown: the plugin accepts one more id while handling the shutdown
